@@ -100,6 +100,14 @@ for code, tab in ((0xB2, "_logical_block_provisioning_bits"), (0xB3, "_referrals
     case("INQUIRY VPD %02Xh" % code, INQ, lambda code=code, tab=tab: dict(_hdr("vpd"), page_code=code, **leaves(INQ + "." + tab, "vpd")), ukw={"evpd": 1})
 for n in (0, 7, 20):
     case("INQUIRY VPD 80h, %d-byte serial" % n, INQ, lambda n=n: dict(_hdr("vpd"), page_code=0x80, unit_serial_number=sym_blob("serial", n)), ukw={"evpd": 1})
+# sizes at which a length field's low byte wraps (255 / 256 / beyond): the two-byte PAGE LENGTH, the four-byte LUN LIST
+# LENGTH and PARAMETER DATA LENGTH are honoured in full
+for n in (251, 252, 255, 256, 300):
+    case("INQUIRY VPD 80h, %d-byte serial" % n, INQ, lambda n=n: dict(_hdr("vpd"), page_code=0x80, unit_serial_number=sym_blob("serial", n)), ukw={"evpd": 1})
+for n in (31, 32, 33):
+    case("REPORT LUNS, %d LUNs" % n, RL, lambda n=n: {"luns": [{"lun%d" % i: S(("lun", i), 64)} for i in range(n)]})
+for n in (15, 16):
+    case("GET LBA STATUS, %d descriptors" % n, GL, lambda n=n: {"lbas": [leaves(GL + "._datain_bits", "lba%d" % i) for i in range(n)]})
 
 
 def designator(kind):
